@@ -35,7 +35,7 @@ PROPS = {
     "C03": dict(modules=["Emu8086.Props.C03"], runs=[("l1", "muldiv"), ("l2", "muldiv"), ("l2", "divx")], gen=["Arch"],
                 rule="L1: MUL/IMUL/DIV/IDIV byte forms on (lattice+random AX) x all 256 operands, word forms on lattice triples + random 48-bit triples "
                      "biased to the quotient-overflow boundary; adjusts on AX x {AF,CF}; non-trivial = state changed or divide error"),
-    "C04": dict(modules=["Emu8086.Props.C04"], runs=[("l2", "mov+xfer"), ("l2", "arith+logic+shift+muldiv")], gen=["Arch", "ILiterals"],
+    "C04": dict(modules=["Emu8086.Props.C04", "Emu8086.Props.ExecAll"], runs=[("l2", "mov+xfer"), ("l2", "arith+logic+shift+muldiv")], gen=["Arch", "ILiterals"],
                 rule="L2 (Interpreter::parse on a fully specified machine): random lines of the MOV/XCHG/LEA and ALU families over all operand shapes "
                      "(direct, indirect, based, indexed, based-indexed, +-displacement, segment override, data label) x adversarial registers/segments "
                      "(lattice values, segments straddling 2^20); memory is a position-dependent pattern, so a read identifies the address used and the "
@@ -51,7 +51,7 @@ PROPS = {
                 rule="L2 string: single steps of every string instruction x width x DF x prefix on adversarial DS/ES/SI/DI; rep: the REPEAT protocol "
                      "driven to completion (the driver's loop) for every mnemonic x width x DF x prefix x CX in 0..64 (+255, 300; thorough also 4095, 32768, 65535), "
                      "with aliasing DS:SI/ES:DI and runs of equal bytes; non-trivial = CX != 0 or a state change"),
-    "C09": dict(modules=["Emu8086.Props.C09"], runs=[("l2", "all"), ("l2", "malformed"), ("l2", "divx")], gen=["Arch", "ILiterals"],
+    "C09": dict(modules=["Emu8086.Props.C09", "Emu8086.Props.ExecAll"], runs=[("l2", "all"), ("l2", "malformed"), ("l2", "divx")], gen=["Arch", "ILiterals"],
                 rule="L2: every instruction class x adversarial machine states (registers from {0,1,7FFFh,8000h,FFFEh,FFFFh,random}, segments straddling 2^20, "
                      "counts 0..255, divisors 0/1/-1) with catch_unwind in an overflow-checking build: a PANIC of the real code is a violation; malformed = "
                      "near-miss lines the assembler never emits (must be a reported error in both); divx = MUL/IMUL/DIV/IDIV over the boundary lattice^3 of (AX, DX, operand) x 10 operand forms (divisors 0/1/-1, MIN dividends); non-trivial = outcome/state differs from plain NEXT"),
